@@ -467,6 +467,16 @@ Proof.
   - rewrite nth_error_replace_neq in Hi by exact Hne. eapply Hloc; eauto.
 Qed.
 
+Lemma skipn_replace_before {A} (l : list A) : forall n j y, (j < n)%nat -> skipn n (replace_nth j y l) = skipn n l.
+Proof.
+  induction l as [|a l IH]; intros [|n] [|j] y H; cbn; try lia; try reflexivity.
+  apply IH. lia.
+Qed.
+
+Lemma view_replace_before n j y iters offs : (j < n)%nat ->
+  view_at n (replace_nth j y iters) offs = view_at n iters offs.
+Proof. intro H. unfold view_at. rewrite skipn_replace_before by exact H. reflexivity. Qed.
+
 Definition tview (st : tfr_st) : list Z := view_at (tf_seg st) (tf_iters st) (tf_offs st).
 
 Lemma tfr_next_loop_ok : forall fuel st,
@@ -499,13 +509,14 @@ Proof.
     + rewrite (upd_nth_Some (fun _ => Some it') _ _ _ it' Ei eq_refl).
       eexists. split; [reflexivity|]. cbn [tf_seg tf_iters tf_offs tf_curr tf_orig tf_unadorned map app hd_res tl].
       split.
-      * rewrite (view_cons (tf_seg st) _ _ it' off); [reflexivity| |exact Eo].
-        apply nth_error_replace_eq. exact Hlt.
+      * rewrite (view_cons (tf_seg st) _ _ it' off); [|apply nth_error_replace_eq; exact Hlt|exact Eo].
+        rewrite view_replace_before by lia. reflexivity.
       * repeat (split; [reflexivity|]). split; [eapply (wf_replace_suffix _ _ _ _ it' [x]); eauto|].
         split; [reflexivity|]. split; [lia|]. split; [intros j Hj; lia|].
         intros j Hj. apply nth_error_replace_neq. lia.
   - rewrite (view_end _ _ _ Ei). cbn [hd_res tl]. exists st. unfold tview. rewrite (view_end _ _ _ Ei).
-    repeat (split; [auto|]). split; [lia|]. split; [intros j Hj; lia|auto].
+    split; [reflexivity|]. split; [reflexivity|]. split; [reflexivity|]. split; [reflexivity|]. split; [reflexivity|].
+    split; [exact Hwf|]. split; [reflexivity|]. split; [lia|]. split; [intros j Hj; lia|]. intros; reflexivity.
 Qed.
 
 Lemma tfr_next_ok st :
@@ -519,3 +530,170 @@ Lemma tfr_next_ok st :
     (forall j, (tf_seg st <= j < tf_seg st')%nat -> nth_error (tf_iters st') j = Some []) /\
     (forall j, (j < tf_seg st)%nat -> nth_error (tf_iters st') j = nth_error (tf_iters st) j).
 Proof. intro H. apply tfr_next_loop_ok; [exact H|lia]. Qed.
+
+(* segment of the last Advance target (0 before any Advance) *)
+Definition s0 (wm : option Z) (offs : list Z) : nat :=
+  match wm with None => O | Some t => pred (search_gt offs t) end.
+
+Record TInv (st : tfr_st) (last wm : option Z) : Prop := mkTInv {
+  ti_wf : wf_segs (tf_iters st) (tf_offs st);
+  ti_curr : tf_curr st = last;
+  ti_hd : forall o, nth_error (tf_offs st) O = Some o -> o = 0;
+  ti_seg : (tf_seg st <= length (tf_iters st))%nat;
+  (* the segments scanned since the last Advance target's segment are used up *)
+  ti_emp : forall j, (s0 wm (tf_offs st) <= j < tf_seg st)%nat -> nth_error (tf_iters st) j = Some [] }.
+
+Definition call_ok (last wm : option Z) (c : call) : Prop :=
+  match c with
+  | Next => True
+  | Advance t => 0 <= t /\ lt_opt last t = true /\ le_opt wm t = true
+  end.
+
+Lemma tfr_step_next st last wm :
+  TInv st last wm ->
+  exists st', tfr_next st = Some (hd_res (tview st), st') /\ tview st' = tl (tview st) /\
+              TInv st' (match hd_res (tview st) with Some x => Some x | None => last end) wm.
+Proof.
+  intros [Hwf Hcur Hhd Hseg Hemp].
+  destruct (tfr_next_ok st Hwf) as [st' [H1 [H2 [H3 [H4 [H5 [H6 [H7 [H8 [H9 H10]]]]]]]]]].
+  exists st'. split; [exact H1|]. split; [exact H2|]. constructor.
+  - rewrite H3. exact H6.
+  - rewrite H7, Hcur. reflexivity.
+  - rewrite H3. exact Hhd.
+  - destruct (Nat.eq_dec (tf_seg st') (tf_seg st)) as [E|E]; [rewrite E|].
+    + destruct H6 as [Hl _]. destruct Hwf as [Hl0 _]. lia.
+    + assert (nth_error (tf_iters st') (pred (tf_seg st')) = Some []) as Hn by (apply H9; lia).
+      assert (pred (tf_seg st') < length (tf_iters st'))%nat by (apply nth_error_Some; congruence). lia.
+  - rewrite H3. intros j Hj. destruct (Nat.lt_ge_cases j (tf_seg st)) as [Hlt|Hge].
+    + rewrite H10 by exact Hlt. apply Hemp. lia.
+    + apply H9. lia.
+Qed.
+
+Lemma tfr_step_adv st last wm t :
+  TInv st last wm -> 0 <= t -> lt_opt last t = true -> le_opt wm t = true ->
+  exists st', tfr_adv st t = Some (hd_res (dropwhile_lt t (tview st)), st') /\
+              tview st' = tl (dropwhile_lt t (tview st)) /\
+              TInv st' (match hd_res (dropwhile_lt t (tview st)) with Some x => Some x | None => last end) (Some t).
+Proof.
+  intros Hinv Ht Hlast Hwm. pose proof Hinv as [Hwf Hcur Hhd Hseg Hemp].
+  pose proof Hwf as [Hlen [Hloc Hmono]].
+  unfold tfr_adv.
+  (* no restart: the target is beyond the last returned id *)
+  assert ((match tf_curr st with
+           | Some c => if t <=? c then
+                         if tf_unadorned st
+                         then {| tf_orig := tf_orig st; tf_offs := tf_offs st; tf_iters := tf_orig st;
+                                 tf_seg := tf_seg st; tf_curr := tf_curr st; tf_unadorned := true |}
+                         else {| tf_orig := tf_orig st; tf_offs := tf_offs st; tf_iters := tf_orig st;
+                                 tf_seg := O; tf_curr := None; tf_unadorned := false |}
+                       else st
+           | None => st end) = st) as ->.
+  { rewrite Hcur. destruct last as [c|]; [|reflexivity]. cbn in Hlast. apply Z.ltb_lt in Hlast.
+    rewrite (proj2 (Z.leb_gt t c)) by lia. reflexivity. }
+  destruct (tf_offs st) as [|o0 orest] eqn:Eoffs.
+  - (* no segment *)
+    assert (tf_iters st = []) as Ei by (destruct (tf_iters st); [reflexivity|cbn in Hlen; lia]).
+    assert (tview st = []) as Ev by (unfold tview, view_at; rewrite Ei, Eoffs; destruct (tf_seg st); reflexivity).
+    rewrite Ev. cbn. exists st. split; [reflexivity|]. split; [exact Ev|].
+    constructor; rewrite ?Eoffs; auto.
+    + rewrite Ei in Hseg. cbn in Hseg. intros j Hj. lia.
+  - rewrite <- Eoffs in *.
+    assert (o0 = 0) as -> by (apply Hhd; rewrite Eoffs; reflexivity).
+    destruct (search_gt_spec (tf_offs st) t) as [S1 [S2 S3]].
+    assert (1 <= search_gt (tf_offs st) t)%nat as Hge1.
+    { rewrite Eoffs. cbn. rewrite (proj2 (Z.ltb_ge t 0)) by lia. lia. }
+    unfold seg_index_local. destruct (search_gt (tf_offs st) t) as [|si] eqn:Esg; [lia|].
+    assert (si < length (tf_offs st))%nat as Hsi by lia.
+    destruct (nth_error (tf_offs st) si) as [o|] eqn:Eo; [|apply nth_error_None in Eo; lia].
+    destruct (nth_error (tf_iters st) si) as [it|] eqn:Ei; [|apply nth_error_None in Ei; lia].
+    assert (o <= t) as Hot by (apply (S1 si o); [lia|exact Eo]).
+    assert (forall o', nth_error (tf_offs st) (S si) = Some o' -> t < o') as Hnext by (intros o' H; apply S2; exact H).
+    assert (s0 wm (tf_offs st) <= si)%nat as Hs0.
+    { unfold s0. destruct wm as [t'|]; [|lia]. cbn in Hwm. apply Z.leb_le in Hwm.
+      pose proof (search_gt_mono (tf_offs st) t' t Hwm). rewrite Esg in H. lia. }
+    (* what scanning from segment si would deliver *)
+    set (Rest := view_at (S si) (tf_iters st) (tf_offs st)).
+    assert (view_at si (tf_iters st) (tf_offs st) = map (fun x => x + o) it ++ Rest) as EV by (apply view_cons; assumption).
+    assert (Forall (fun g => t <= g) Rest) as HR.
+    { unfold Rest. destruct (nth_error (tf_offs st) (S si)) as [o'|] eqn:Eo'.
+      - eapply Forall_impl; [|apply (view_lower _ _ Hwf (length (tf_iters st)) (S si) o'); [lia|exact Eo']].
+        cbn. intros g Hg. specialize (Hnext o' eq_refl). lia.
+      - rewrite view_end; [constructor|]. apply nth_error_None. apply nth_error_None in Eo'. lia. }
+    assert (dropwhile_lt t (tview st) = map (fun x => x + o) (dropwhile_lt (t - o) it) ++ Rest) as Edw.
+    { rewrite dw_shift, <- (dw_app_ge t _ Rest HR), <- EV. unfold tview.
+      destruct (Nat.le_gt_cases (tf_seg st) si) as [Hle|Hgt].
+      - destruct (view_split _ _ Hwf (si - tf_seg st) (tf_seg st) o) as [pre [E F]];
+          [replace (tf_seg st + (si - tf_seg st))%nat with si by lia; exact Eo|].
+        replace (tf_seg st + (si - tf_seg st))%nat with si in E by lia. rewrite E.
+        apply dw_app_lt. eapply Forall_impl; [|exact F]. cbn. intros; lia.
+      - rewrite (view_empties (tf_iters st) (tf_offs st) (tf_seg st - si) si); [|intros j Hj; apply Hemp; lia|exact Hlen].
+        replace (si + (tf_seg st - si))%nat with (tf_seg st) by lia. reflexivity. }
+    rewrite Edw.
+    destruct (dropwhile_lt_split (t - o) it) as [pre [Esplit _]].
+    destruct (dropwhile_lt (t - o) it) as [|x it'] eqn:Ed.
+    + (* nothing at/after the target in segment si: continue with Next *)
+      rewrite (upd_nth_Some (fun _ => Some []) _ _ _ [] Ei eq_refl).
+      set (st1 := {| tf_orig := tf_orig st; tf_offs := tf_offs st; tf_iters := replace_nth si [] (tf_iters st);
+                     tf_seg := si; tf_curr := tf_curr st; tf_unadorned := tf_unadorned st |}).
+      assert (TInv st1 last (Some t)) as Hinv1.
+      { constructor; cbn.
+        - eapply (wf_replace_suffix _ _ _ it [] pre); eauto.
+        - exact Hcur.
+        - exact Hhd.
+        - rewrite replace_nth_length. lia.
+        - intros j Hj. rewrite Esg in Hj. cbn in Hj. lia. }
+      assert (tview st1 = Rest) as Ev1.
+      { unfold tview, st1. cbn. rewrite (view_cons si _ _ [] o); [|apply nth_error_replace_eq; lia|exact Eo].
+        cbn. unfold Rest. apply view_replace_before. lia. }
+      destruct (tfr_step_next st1 last (Some t) Hinv1) as [st' [G1 [G2 G3]]].
+      rewrite Ev1 in G1, G2, G3. cbn [map app]. exists st'. auto.
+    + (* found in segment si *)
+      rewrite (upd_nth_Some (fun _ => Some it') _ _ _ it' Ei eq_refl).
+      eexists. split; [reflexivity|]. cbn [map app hd_res tl]. split.
+      * unfold tview. cbn. rewrite (view_cons si _ _ it' o); [|apply nth_error_replace_eq; lia|exact Eo].
+        rewrite view_replace_before by lia. reflexivity.
+      * constructor; cbn.
+        -- eapply (wf_replace_suffix _ _ _ it it' (pre ++ [x])); eauto. rewrite <- app_assoc. exact Esplit.
+        -- reflexivity.
+        -- exact Hhd.
+        -- rewrite replace_nth_length. lia.
+        -- intros j Hj. rewrite Esg in Hj. cbn in Hj. lia.
+Qed.
+
+Theorem tfr_cursor_run : forall prog st last wm,
+  TInv st last wm ->
+  Forall (fun c => match c with Advance t => 0 <= t | Next => True end) prog ->
+  forward_from last wm (tview st) prog = true ->
+  tfr_run st prog = Some (run_spec (tview st) prog).
+Proof.
+  induction prog as [|c prog IH]; intros st last wm Hinv Hnn Hfw; [reflexivity|].
+  inversion Hnn as [|? ? Hc Hnn']; subst. cbn [tfr_run run_spec tfr_step]. destruct c as [|t]; cbn [forward_from spec_step] in *.
+  - destruct (tfr_step_next st last wm Hinv) as [st' [H1 [H2 H3]]]. rewrite H1.
+    unfold spec_next in *. rewrite uncons_hd_tl in *. cbn [fst snd] in *.
+    rewrite (IH st' _ wm H3 Hnn'); [rewrite H2; reflexivity|]. rewrite H2. exact Hfw.
+  - unfold spec_advance in *. rewrite uncons_hd_tl in *.
+    apply andb_true_iff in Hfw as [Hfw Hfw']. apply andb_true_iff in Hfw as [Hl Hw].
+    destruct (tfr_step_adv st last wm t Hinv Hc Hl Hw) as [st' [H1 [H2 H3]]]. rewrite H1.
+    rewrite (IH st' _ (Some t) H3 Hnn'); [rewrite H2; reflexivity|]. rewrite H2. exact Hfw'.
+Qed.
+
+(* the reader over a well-formed snapshot is a cursor over the global posting list on every
+   forward program (non-negative targets: ids are uint64) *)
+Theorem tfr_cursor unadorned segs offs prog :
+  wf_segs segs offs -> (forall o, nth_error offs O = Some o -> o = 0) ->
+  Forall (fun c => match c with Advance t => 0 <= t | Next => True end) prog ->
+  forward (tfr_global segs offs) prog = true ->
+  tfr_run (tfr_init unadorned segs offs) prog = Some (run_spec (tfr_global segs offs) prog).
+Proof.
+  intros Hwf Hhd Hnn Hfw.
+  apply (tfr_cursor_run prog (tfr_init unadorned segs offs) None None); [|exact Hnn|exact Hfw].
+  constructor; cbn; auto; try lia. intros j Hj. lia.
+Qed.
+
+Example wf_segs_example : wf_segs [[0; 2]; [1]; []; [0; 3]] [0; 3; 5; 5].
+Proof.
+  split; [reflexivity|]. split.
+  - intros [|[|[|[|[|j]]]]] it o Hi Ho; cbn in Hi, Ho; inversion Hi; inversion Ho; subst; cbn; repeat split; try lia;
+      repeat constructor; try lia; intros o' Ho'; inversion Ho'; lia.
+  - intros [|[|[|[|j]]]] a b Ha Hb; cbn in Ha, Hb; inversion Ha; inversion Hb; subst; try lia; destruct j; discriminate.
+Qed.
